@@ -1153,3 +1153,120 @@ func E9AbsorbedLink(c *core.Ctx, r *core.Report) {
 	r.Count("E9.absorbing-walks", n)
 	r.Floor("E9.absorbing-walks", 1)
 }
+
+// E9HoleParity: the contour builder reverses a finished contour exactly at odd nesting depth.
+func E9HoleParity(c *core.Ctx, r *core.Report) {
+	r.Rule("E9.hole-parity", "the contour builder of bentleyOttmann walks every result contour counter-clockwise and reverses it when it is a hole. With d the result nesting depth of the contour (0 outermost, 1 a hole, 2 an island in a hole, …) the condition that guards the reversal is evaluated with Go's integer semantics for d = 0…5 and must be true exactly for odd d: an island at depth 2 is a filling contour and stays counter-clockwise, otherwise its winding number is −1 and it is not filled under the Positive rule")
+	p := c.MustPkg("")
+	info := p.TypesInfo
+	fd := core.MustFuncDecl(p, "bentleyOttmann")
+	r.Func("canvas.bentleyOttmann")
+	n := 0
+	ast.Inspect(fd.Body, func(m ast.Node) bool {
+		is, ok := m.(*ast.IfStmt)
+		if !ok {
+			return true
+		}
+		// body reverses a path built from R.d[index:]
+		reverses := false
+		ast.Inspect(is.Body, func(k ast.Node) bool {
+			if call, ok := k.(*ast.CallExpr); ok {
+				if se, ok := call.Fun.(*ast.SelectorExpr); ok && se.Sel.Name == "Reverse" {
+					reverses = true
+				}
+			}
+			return true
+		})
+		if !reverses {
+			return true
+		}
+		// the integer variable of the condition
+		var v types.Object
+		ast.Inspect(is.Cond, func(k ast.Node) bool {
+			if id, ok := k.(*ast.Ident); ok {
+				if o := core.ObjOf(info, id); o != nil {
+					if b, ok := o.Type().Underlying().(*types.Basic); ok && b.Kind() == types.Int {
+						v = o
+					}
+				}
+			}
+			return true
+		})
+		if v == nil {
+			return true
+		}
+		n++
+		key := fmt.Sprintf("canvas.bentleyOttmann|hole reversal #%d|odd depth only", n)
+		bad := ""
+		for d := int64(0); d <= 5; d++ {
+			got, ok := evalIntBool(info, is.Cond, v, d)
+			if !ok {
+				bad = "the condition `" + types.ExprString(is.Cond) + "` cannot be evaluated"
+				break
+			}
+			if got != (d%2 == 1) {
+				bad = fmt.Sprintf("at nesting depth %d the condition `%s` is %v: %s", d, types.ExprString(is.Cond), got, map[bool]string{true: "a filling contour is reversed to clockwise", false: "a hole stays counter-clockwise and is filled"}[got])
+				break
+			}
+		}
+		if bad == "" {
+			r.OK("E9.hole-parity", key, c.Pos(is.Pos()), types.ExprString(is.Cond))
+		} else {
+			r.Fail("E9.hole-parity", key, c.Pos(is.Pos()), bad)
+		}
+		return true
+	})
+	r.Count("E9.hole-reversals", n)
+	r.Floor("E9.hole-reversals", 1)
+}
+
+// E9WindingsSync: both end points of a result edge carry the same result winding number.
+func E9WindingsSync(c *core.Ctx, r *core.Report) {
+	r.Rule("E9.windings-sync", "in bentleyOttmann's contour builder the result winding number of an edge is kept on both of its end points: whenever X.resultWindings is assigned in a statement list, a later statement of the same list copies it to X.other.resultWindings, unconditionally. The depth of a new contour is read from the left end point of the edge below it, which for edges walked right-to-left is the *other* end point; a conditional copy leaves those at 0 and the contour above is built as an outer contour")
+	p := c.MustPkg("")
+	info := p.TypesInfo
+	fd := core.MustFuncDecl(p, "bentleyOttmann")
+	r.Func("canvas.bentleyOttmann")
+	n := 0
+	_ = info
+	ast.Inspect(fd.Body, func(m ast.Node) bool {
+		bl, ok := m.(*ast.BlockStmt)
+		if !ok {
+			return true
+		}
+		for i, st := range bl.List {
+			as, ok := st.(*ast.AssignStmt)
+			if !ok || len(as.Lhs) != 1 || as.Tok != token.ASSIGN {
+				continue
+			}
+			sel, ok := as.Lhs[0].(*ast.SelectorExpr)
+			if !ok || sel.Sel.Name != "resultWindings" {
+				continue
+			}
+			base := types.ExprString(sel.X)
+			if strings.HasSuffix(base, ".other") {
+				continue
+			}
+			n++
+			key := fmt.Sprintf("canvas.bentleyOttmann|result windings assignment #%d|copied to the other end point", n)
+			synced := false
+			for _, later := range bl.List[i+1:] {
+				a2, ok := later.(*ast.AssignStmt)
+				if !ok || len(a2.Lhs) != 1 || len(a2.Rhs) != 1 {
+					continue
+				}
+				if types.ExprString(a2.Lhs[0]) == base+".other.resultWindings" && types.ExprString(a2.Rhs[0]) == base+".resultWindings" {
+					synced = true
+				}
+			}
+			if synced {
+				r.OK("E9.windings-sync", key, c.Pos(as.Pos()), "")
+			} else {
+				r.Fail("E9.windings-sync", key, c.Pos(as.Pos()), fmt.Sprintf("`%s` is not followed, in the same statement list, by `%s.other.resultWindings = %s.resultWindings`: the other end point keeps a stale winding number", c.Src(as), base, base))
+			}
+		}
+		return true
+	})
+	r.Count("E9.result-windings-assignments", n)
+	r.Floor("E9.result-windings-assignments", 2)
+}
